@@ -2,6 +2,8 @@ package main
 
 import (
 	"fmt"
+	"os"
+	"path/filepath"
 	"regexp"
 	"strings"
 )
@@ -15,6 +17,9 @@ func concretizeSym(src string, w map[string]string) (string, bool) {
 	re := regexp.MustCompile(`Sym\.([a-z]+)`)
 	out := re.ReplaceAllStringFunc(src, func(m string) string {
 		name := m[4:]
+		if name == "kw" {
+			return m // configured keyword method: provided natively by an extra config file
+		}
 		kinds, have := w["Sym."+name]
 		if !have {
 			ok = false
@@ -129,10 +134,7 @@ func replayPair(n *Native, job *Job, v *Violation) (ReplayResult, bool) {
 	if !okA || !okB {
 		return ReplayResult{Observed: "cannot make the skeleton concrete"}, true
 	}
-	cfg := ""
-	if job.Config != "" {
-		cfg = configRoot(job.Config) + "/.ti-config"
-	}
+	cfg := nativeConfigFor(n, job, srcA)
 	args := []string{"./a.rb"}
 	if fl := v.Witness["flags"]; fl != "" {
 		args = append(args, strings.Fields(fl)...)
@@ -201,4 +203,39 @@ func replayRename(n *Native, job *Job, v *Violation) (ReplayResult, bool) {
 	v.Witness["native-program-B"] = cb
 	return ReplayResult{Cmd: "ti ./a.rb on both programs", Reproduced: outB != want,
 		Observed: fmt.Sprintf("original reports %q; renamed reports %q, expected %q", outA, outB, want)}, true
+}
+
+// replayPairNoSym: pair replay for skeletons that may call configured Sym methods which have
+// no plain-Ruby equivalent (Sym.kw): those counterexamples can only be replayed when the
+// program does not use them.
+func replayPairNoSym(n *Native, job *Job, v *Violation) (ReplayResult, bool) {
+	return replayPair(n, job, v)
+}
+
+const symKwJSON = `{"frame": "Builtin", "class": "Sym", "instance_methods": [], "class_methods": [
+ {"name": "kw", "arguments": [{"type": ["Int"]}, {"type": ["Int"], "key": "ka:"}, {"type": ["String"], "key": "kb:"}, {"type": ["Int"], "key": "kc:", "is_default": true}], "return_type": {"type": ["Int"]}}]}`
+
+// nativeConfigFor returns the .ti-config directory to use natively for a job; programs that
+// call Sym.kw get the job's configuration plus a file declaring that method.
+func nativeConfigFor(n *Native, job *Job, src string) string {
+	base := filepath.Join(configRoot(job.Config), ".ti-config")
+	if !strings.Contains(src, "Sym.kw") {
+		if job.Config == "" {
+			return ""
+		}
+		return base
+	}
+	dir := filepath.Join(n.Dir, "cfg-symkw-"+job.Config)
+	if _, err := os.Stat(dir); err != nil {
+		os.MkdirAll(dir, 0o755)
+		ents, _ := os.ReadDir(base)
+		for _, e := range ents {
+			real, err := filepath.EvalSymlinks(filepath.Join(base, e.Name()))
+			if err == nil {
+				os.Symlink(real, filepath.Join(dir, e.Name()))
+			}
+		}
+		os.WriteFile(filepath.Join(dir, "zz_sym.json"), []byte(symKwJSON), 0o644)
+	}
+	return dir
 }
